@@ -1,0 +1,11 @@
+//go:build !verif
+
+package lisp
+
+import (
+	"context"
+
+	"github.com/jig/lisp/types"
+)
+
+func verifLoopTop(context.Context, types.MalType, types.EnvType) {}
